@@ -512,6 +512,53 @@ fn confused_programs(report: &Report, thorough: bool) {
     report.family(FamilyStat { name, cases: total * confused.len() as u64, nontrivial: nontriv.load(Ordering::Relaxed), skipped: 0, note: "programs of the C08 generator (include/render/for/if/capture/assign/cycle/increment)".into() });
 }
 
+/// Arrays longer than 20 elements (where the standard sort starts checking that its comparator is a total
+/// order, and where quadratic helpers become visible) through every filter: all periodic arrays pattern^k,
+/// |pattern| <= 3, over a pool whose members are ordered differently as numbers, as text and by kind.
+fn long_arrays(report: &Report, full: bool) {
+    let pool: Vec<V> = vec![V::Int(9), V::Int(10), V::Float(9.5), V::s("1a"), V::s("10"), V::s("B"), V::Nil, V::Bool(true), V::obj(&[("k", V::Int(10))]), V::obj(&[("k", V::s("1a"))])];
+    let lens: &[usize] = if full { &[21, 22, 33, 64] } else { &[21, 33] };
+    let parser = cfgs::parser(Config::Full);
+    let filters = filter_names(&parser);
+    let n = pool.len() as u64;
+    let np = crate::run::seq_count(n, 3) - 1;
+    // shape: 0 no argument, 1 property "k", 2 the array itself as argument, 3 an integer
+    let rad = [filters.len() as u64, np, lens.len() as u64, 4];
+    let total = product(&rad);
+    let nontriv = AtomicU64::new(0);
+    let parse_errs = AtomicU64::new(0);
+    let build = |i: u64| -> (String, V, String) {
+        let d = decode(i, &rad);
+        let f = &filters[d[0] as usize].0;
+        let pat: Vec<V> = crate::run::seq_decode(d[1] + 1, n, 3).iter().map(|k| pool[*k as usize].clone()).collect();
+        let l = lens[d[2] as usize];
+        let a: Vec<V> = (0..l).map(|j| pat[j % pat.len()].clone()).collect();
+        let text = match d[3] {
+            0 => format!("{{{{ a | {f} }}}}"),
+            1 => format!("{{{{ a | {f}: 'k' }}}}"),
+            2 => format!("{{{{ a | {f}: a }}}}"),
+            _ => format!("{{{{ a | {f}: 2 }}}}"),
+        };
+        (text, V::obj(&[("a", V::Arr(a))]), f.clone())
+    };
+    let name = format!("long arrays/L in {lens:?}");
+    par_range(
+        report,
+        &name,
+        total,
+        |i| {
+            let (text, data, f) = build(i);
+            total_render(report, &format!("filter={f}|long-array"), i, &parser, &text, &data, &data.to_object(), &nontriv, &parse_errs);
+        },
+        |i| {
+            let (t, d, _) = build(i);
+            json!({"kind":"render","template":t,"data":d.to_json(),"partials":[]})
+        },
+    );
+    report.nontrivial.fetch_add(nontriv.load(Ordering::Relaxed), Ordering::Relaxed);
+    report.family(FamilyStat { name, cases: total, nontrivial: nontriv.load(Ordering::Relaxed), skipped: parse_errs.load(Ordering::Relaxed), note: format!("{} filters x {} periodic arrays (patterns of length <= 3 over 9, 10, 9.5, \"1a\", \"10\", \"B\", nil, true, two objects) x lengths x 4 argument shapes (none, 'k', the array, 2)", filters.len(), np) });
+}
+
 pub fn run(tier: Tier) -> i32 {
     let report = Report::new("C02", tier, "exploration");
     report.set_rule("complete products: every registered filter (stdlib + jekyll + shopify + extra, names from reflection) x input x argument vectors of arity 0..3 from the shared value pool (variables, literals, keyword form); every loop/range/cycle/conditional/include/render/counter construct x pool values in every parameter position; generated programs x type-confused data; distinct by construction; non-trivial = the template parsed and rendered to Ok (the rest returned Err, also acceptable); oracle = returns Ok/Err, no panic/hang, bytes are UTF-8, errors carry a message");
@@ -522,5 +569,6 @@ pub fn run(tier: Tier) -> i32 {
     confused_programs(&report, full);
     error_paths(&report);
     awkward_strings(&report);
+    long_arrays(&report, full);
     report.finish()
 }
